@@ -67,11 +67,11 @@ Definition parse_line (slot_count : Z) (line : bytes) : line_result :=
       else
         let m := nth 3 fs [] in
         if bytes_eqb m [45] then
-          if lenN fs <? 9 then LBad
-          else match parse_slots slot_count (skipn 8 fs) with
-               | None => LBad
-               | Some sl => LInst {| i_id := id; i_addr := addr; i_master := []; i_replicas := []; i_slots := sl |}
-               end
+          (* a master may own no slot at all *)
+          match parse_slots slot_count (skipn 8 fs) with
+          | None => LBad
+          | Some sl => LInst {| i_id := id; i_addr := addr; i_master := []; i_replicas := []; i_slots := sl |}
+          end
         else LInst {| i_id := id; i_addr := addr; i_master := m; i_replicas := []; i_slots := [] |}
   end.
 
